@@ -163,20 +163,10 @@ def eval_node(n: SP.ParameterNode, ins: list[np.ndarray], penv: ParamEnv) -> np.
         return _along(ins[0], n.axis, lambda vs: _vsum([v.exp() for v in vs]).log())
     if isinstance(n, SP.SoftmaxParameter):
 
-        def sm(vs):
-            es = [v.exp() for v in vs]
-            s = _vsum(es)
-            return [e / s for e in es]
-
-        return _along(ins[0], n.axis, sm)
+        return _along(ins[0], n.axis, lambda vs: V.softmax_lane(list(vs)))
     if isinstance(n, SP.LogSoftmaxParameter):
 
-        def lsm(vs):
-            es = [v.exp() for v in vs]
-            s = _vsum(es)
-            return [(e / s).log() for e in es]
-
-        return _along(ins[0], n.axis, lsm)
+        return _along(ins[0], n.axis, lambda vs: [v.log() for v in V.softmax_lane(list(vs))])
     if isinstance(n, SP.MixingWeightParameter):
         v = ins[0]
         K, H = v.shape
